@@ -65,6 +65,7 @@ def run_one(ck, tm, tier, ws):
                 allowed.add(f_)
                 changed = True
     verdict_under_lock(ck, tm, "R7.3")
+    verifiers_kept_until_scope_exit(ck, tm, "R7.3")
     bad = [w for w in writers if w[0] not in allowed]
     ck.ob("R7.2", "no-other-writer-in-library", tm.target, not bad, "atomic writes in the library: %s" % [(short(a), short(b)) for a, b in writers])
 
@@ -219,3 +220,29 @@ def verdict_under_lock(ck, tm, rule):
                                          "expansion (resetting and incrementing the shared static) before this installation's verdict reads it"),
                   "%s:%d" % (a["span"]["file"], a["span"]["line"]) if a.get("span") else None)
     ck.floor(rule, "lock-holder-fields-with-a-verifier", n, 1, tm.target)
+
+
+def verifiers_kept_until_scope_exit(ck, tm, rule):
+    """The verdict of an installation is given at scope exit: outside the destructor of the struct that holds them, a `&mut` borrow
+    of the verifier container may only flow into an insertion (push / extend / insert / reserve) - removing, replacing or
+    clearing elements there drops a verifier, i.e. gives its verdict early, against a counter another installation of the same
+    expansion may just have reset."""
+    from . import scans
+    facts = tm.facts
+    vtypes = roles.verifier_types(facts)
+    n = 0
+    for p, lockname, lidx, a, opt in roles.lock_holders(facts):
+        fields = a["variants"][0]["fields"]
+        drops = tuple(d for adt_, d in tm.drop_impls() if adt_ == p)
+        for i, f in enumerate(fields):
+            if i == lidx or not any(t.get("k") == "adt" and t.get("path") in vtypes for t, _ in roles.components(facts, f["ty"], through_refs=False)):
+                continue
+            n += 1
+            muts = scans.container_mutations(facts, p, i, exclude_fns=drops)
+            for fn, what, line in muts:
+                ck.ob(rule, "%s/%s/mutated-before-scope-exit/%s/%s" % (short(p), f["name"], short(fn), short(what)), tm.target, False,
+                      "%s applies %s to %s.%s outside the destructor: a verifier removed there gives its verdict early" % (fn, short(what), short(p), f["name"]),
+                      "%s:%d" % (facts.body(fn)["span"]["file"], line))
+            ck.ob(rule, "%s/%s/kept-until-scope-exit" % (short(p), f["name"]), tm.target, not muts,
+                  "%d non-insertion use(s) of %s.%s outside the destructor" % (len(muts), short(p), f["name"]))
+    ck.floor(rule, "verifier-containers", n, 1, tm.target)
